@@ -494,6 +494,22 @@ class SymStr(Sym):
         out.append(rest)
         return out
 
+    def rpartition(self, sep):
+        if isinstance(sep, Sym) or not self.syntactic(sep):
+            raise SxUnsupported('rpartition on unstructured symbolic string')
+        parts = self.split(sep)
+        if len(parts) == 1:
+            return ('', '', self)
+        return (sx_join(sep, parts[:-1]), sep, parts[-1])
+
+    def partition(self, sep):
+        if isinstance(sep, Sym) or not self.syntactic(sep):
+            raise SxUnsupported('partition on unstructured symbolic string')
+        parts = self.split(sep)
+        if len(parts) == 1:
+            return (self, '', '')
+        return (parts[0], sep, sx_join(sep, parts[1:]))
+
     def rsplit(self, *a, **k):
         raise SxUnsupported('rsplit on symbolic string')
 
